@@ -112,11 +112,14 @@ NewNode(s, r, k, par, key) ==
 \* shallow clone differ only in leaf objects, which are values here).  Flags: Dict keeps
 \* accessor-writable, sealed and the callback; Object keeps sealed; List keeps accessor-writable
 \* and (intended) sealed -- the callback of a List is not carried over (as coded; not a behavioural flag).
-RECURSIVE CloneInto(_,_)
-CloneInto(s, m) ==       \* returns [s, root]; caller guarantees enough free ids
+\* A copy is built by the constructor with the original's flags; a constructor called with sealed = TRUE
+\* seals everything below it, so a copied node is sealed iff the original or one of its copied ancestors was.
+RECURSIVE CloneIntoS(_,_,_)
+CloneIntoS(s, m, inh) ==       \* returns [s, root]; caller guarantees enough free ids
   LET r == MinOf(FreeSet(s))
+      sl == inh \/ s.sealed[m]
       s0 == [NewNode(s, r, s.kind[m], NULL, NULL) EXCEPT
-               !.sealed[r] = s.sealed[m],
+               !.sealed[r] = sl,
                !.accw[r] = s.accw[m],
                !.subs[r] = IF s.kind[m] = "list" THEN FALSE ELSE s.subs[m]]
   IN IF IsDictLike(s, m) THEN
@@ -124,7 +127,7 @@ CloneInto(s, m) ==       \* returns [s, root]; caller guarantees enough free ids
              IF i = 0 THEN s0
              ELSE LET kv == s.ditems[m][i] IN
                   IF IsRef(kv[2]) THEN
-                    LET c == CloneInto(F[i-1], kv[2]) IN
+                    LET c == CloneIntoS(F[i-1], kv[2], sl) IN
                     [c.s EXCEPT !.ditems[r] = Append(@, <<kv[1], c.root>>), !.parent[c.root] = r, !.pkey[c.root] = kv[1]]
                   ELSE [F[i-1] EXCEPT !.ditems[r] = Append(@, kv)]
        IN [s |-> F[Len(s.ditems[m])], root |-> r]
@@ -133,10 +136,11 @@ CloneInto(s, m) ==       \* returns [s, root]; caller guarantees enough free ids
              IF i = 0 THEN s0
              ELSE LET v == s.litems[m][i] IN
                   IF IsRef(v) THEN
-                    LET c == CloneInto(F[i-1], v) IN
+                    LET c == CloneIntoS(F[i-1], v, sl) IN
                     [c.s EXCEPT !.litems[r] = Append(@, c.root), !.parent[c.root] = r, !.pkey[c.root] = LKey(i - 1)]
                   ELSE [F[i-1] EXCEPT !.litems[r] = Append(@, v)]
        IN [s |-> F[Len(s.litems[m])], root |-> r]
+CloneInto(s, m) == CloneIntoS(s, m, FALSE)
 
 ShapeNeed(vd) == IF vd \in {200, 201, 210, 220} THEN 1 ELSE IF vd = 211 THEN 2 ELSE 0
 
@@ -307,6 +311,7 @@ DictClear(n) ==                            \* d.clear()
 DictSetDefault(n, k, vd) ==                \* d.setdefault(k, v)
   /\ act' = <<"DictSetDefault", n, k, vd>>
   /\ "dict" \in Acts /\ kind[n] = "dict" /\ ~IsRef(vd)
+  /\ (TreatSealed(St, n) \/ AccW(St, n) \/ KeyIdx(St, n, k) # 0)   \* as for remove()
   /\ LET i == KeyIdx(St, n, k) IN
      IF i # 0 THEN Commit(St, Ok(ditems[n][i][2]), {})
      ELSE IF TreatSealed(St, n) \/ ~AccW(St, n) THEN Fail("WPE")
@@ -363,6 +368,7 @@ ListPop(n, i) ==                           \* l.pop(i)
 ListRemove(n, v) ==                        \* l.remove(leaf)
   /\ act' = <<"ListRemove", n, v>>
   /\ "list" \in Acts /\ kind[n] = "list" /\ ~IsRef(v)
+  /\ (TreatSealed(St, n) \/ AccW(St, n))       \* a container *method* under disabled accessors is a don't-care: not generated
   /\ LET p == FirstPos(litems[n], v) IN
      IF p = 0 THEN Fail("ValueError")
      ELSE IF TreatSealed(St, n) \/ ~AccW(St, n) THEN Fail("WPE")
